@@ -192,6 +192,22 @@ def metadata_tx(c):
     return tx
 
 
+def asset_literal_tx(c):
+    kinds = dict(SHAPES, string={"k": "string", "v": [120, 121]}, struct={"k": "struct", "ctor": 0, "fields": []})
+    item = {"policy": {"k": "bytes", "v": [0x11] * 28}, "name": {"k": "bytes", "v": [97]}, "amount": {"k": "number", "num": I(5)}}
+    item[c["field"]] = copy.deepcopy(kinds[c["kind"]])
+    lit = {"k": "assets", "items": [item]}
+    other = {"k": "assets", "items": [{"policy": {"k": "none"}, "name": {"k": "none"}, "amount": {"k": "number", "num": I(2000000)}}]}
+    e = {"alone": lit, "add_left": {"k": "add", "a": lit, "b": other}, "add_right": {"k": "add", "a": other, "b": lit},
+         "sub_left": {"k": "sub", "a": lit, "b": other}, "sub_right": {"k": "sub", "a": other, "b": lit},
+         "negate": {"k": "negate", "a": lit}, "into_assets": {"k": "into_assets", "a": lit}}[c["op"]]
+    tx = directive_tx({"name": "treasury_donation", "shapes": {"coin": "good"}, "extra": False})
+    tx["adhoc"] = []
+    tx["outputs"][0]["amount"] = e
+    tx["mints"] = [{"amount": copy.deepcopy(e), "redeemer": {"k": "none"}}]
+    return tx
+
+
 def templates(rep, tier, seed):
     quick = tier == "quick"
     rng = random.Random(seed)
@@ -240,6 +256,13 @@ def templates(rep, tier, seed):
         out.append({"kind": "tir", "tx": metadata_tx(c), "params": [("p1", "Int")], "queries": ["src"],
                     "origin": f"metadata:{c['form']}:{c['prefix']}+{c['width']}+{c['tail']}"})
     rep.extra["metadata_text_cases"] = len(mr.cases)
+    # ill-typed asset literals, alone and under the operations that fold asset lists (Backend!AssetLiteralCases)
+    ar = core.tlc_mc("MC_Backend", BCFG.format(pairs="FALSE", mode="assets", maxdev=0), "c14_assets", workers=2, timeout=600)
+    rep.add_tlc(ar)
+    for c in ar.cases:
+        out.append({"kind": "tir", "tx": asset_literal_tx(c), "params": [("p1", "Int")], "queries": ["src"],
+                    "origin": f"asset-literal:{c['op']}:{c['field']}={c['kind']}"})
+    rep.extra["asset_literal_cases"] = len(ar.cases)
     from .staging import CFG_CLOSURE
     clo = core.tlc_mc("MC_Closure", CFG_CLOSURE.format(depth=0 if quick else 1), "c14_closure", workers=6, timeout=1500)
     rep.add_tlc(clo)
